@@ -8,12 +8,14 @@ export const TAG_FORMS = [
   { form: 'pattern', name: 'i-foo' },
   { form: 'pattern', name: 'x-y-z' },
   { form: 'pattern', name: 'myWidget' },
+  { form: 'pattern', name: 'X-Panel' },
+  { form: 'pattern', name: '_widget' },
   { form: 'importDefault' }, { form: 'importNamed' }, { form: 'constAlias' },
   { form: 'member1' }, { form: 'member2' },
   { form: 'unboundPascal', name: 'Foo' }, { form: 'unboundLower', name: 'foo' }, { form: 'unboundHyphen', name: 'foo-bar' },
   { form: 'Fragment' }, { form: 'KeepAlive' }, { form: 'Teleport' }, { form: 'Transition' },
 ];
-export const PATTERNS = ['^i-', '^x-.*-z$', 'Widget'];
+export const PATTERNS = ['^i-', '^x-.*-z$', 'Widget', '^X-', '^_w'];
 
 /** returns tag spec {kind, name?, src, i?} registering imports/leaves on the builder */
 export function makeTag(b, tf) {
@@ -42,7 +44,7 @@ export function makeTag(b, tf) {
 }
 
 export const ATTR_KINDS = [
-  'strPlain', 'strEmpty', 'strInner', 'strMultiline', 'valueless',
+  'strPlain', 'strEmpty', 'strInner', 'strMultiline', 'strTab', 'strCR', 'strEdges', 'strNbsp', 'strBackslash', 'strEntity', 'valueless',
   'identBound', 'identUnbound', 'member', 'call', 'num', 'strExpr', 'template', 'boolNull', 'undef',
   'arrow', 'objConst', 'objDyn', 'arrDyn', 'cond', 'jsxEl', 'jsxElBraced', 'namespaced',
   'spreadIdent', 'spreadObjLit', 'spreadCall',
@@ -83,6 +85,12 @@ export function makeAttr(b, rng, kind, st) {
     case 'strEmpty': return { ...A.attr(plain(), { k: 'str', raw: '' }), kind, dynamic: false };
     case 'strInner': return { ...A.attr(plain(), { k: 'str', raw: 'a  b c' }), kind, dynamic: false };
     case 'strMultiline': return { ...A.attr(plain(), { k: 'str', raw: 'l1\n      l2\n    l3' }), kind, dynamic: false };
+    case 'strTab': return { ...A.attr(plain(), { k: 'str', raw: 'a\tb\t' }), kind, dynamic: false };
+    case 'strCR': return { ...A.attr(plain(), { k: 'str', raw: 'c1  \r  c2\r\n  c3' }), kind, dynamic: false };
+    case 'strEdges': return { ...A.attr(plain(), { k: 'str', raw: '  e  ' }), kind, dynamic: false };
+    case 'strNbsp': return { ...A.attr(plain(), { k: 'str', raw: '\u00a0n\u00a0\n  \u3000m ' }), kind, dynamic: false };
+    case 'strBackslash': return { ...A.attr(plain(), { k: 'str', raw: 'C:\\dir\\', decoded: 'C:\\dir\\' }), kind, dynamic: false };
+    case 'strEntity': return { ...A.attr(plain(), { k: 'str', raw: 'a&amp;b&lt;', decoded: 'a&b<' }), kind, dynamic: false };
     case 'valueless': return { ...A.attr(plain(), { k: 'none' }), kind, dynamic: false };
     case 'identBound': { b.importNamed('probe:lib', 'vA'); return leafAttr(plain(), 'vA', { dynamic: true }); }
     case 'identUnbound': return leafAttr(plain(), b.global({ k: 'sent' }), { dynamic: true });
